@@ -324,6 +324,54 @@ Theorem subtract_after_send_loses_mark :
   sk_pcA s = 2 /\ sk_pcO s = 5 /\ sk_client s = false.
 Proof. vm_compute. repeat split. Qed.
 
+(* ------------------------------------------------------------------ 4d. rfbShutdownServer's join *)
+Lemma sj_bound : forall b t s, 2 <= t -> sj_step b t s = None.
+Proof. intros b t s H. unfold sj_step. do 2 (destruct t as [|t]; [lia|]). reflexivity. Qed.
+Definition sj_reach : list sj_st := explore sj_st sj_st_beq (sj_step true) 2 5000 [sj_init] [].
+Lemma sj_closed_set : closed sj_st sj_st_beq (sj_step true) 2 sj_reach = true.
+Proof. vm_compute. reflexivity. Qed.
+Lemma sj_init_in : In sj_init sj_reach.
+Proof. apply (mem_in _ _ internal_sj_st_dec_bl). vm_compute. reflexivity. Qed.
+Lemma sj_all_ok : forallb sj_ok sj_reach = true.
+Proof. vm_compute. reflexivity. Qed.
+Lemma sj_all_free : forallb (stuck_free sj_st (sj_step true) 2 sj_final) sj_reach = true.
+Proof. vm_compute. reflexivity. Qed.
+
+(* repaired order: whenever the peer disconnects, the application never touches the freed record ... *)
+Theorem shutdown_join_safe_repaired : forall sched,
+  sj_uaf (run sj_st (sj_step true) sched sj_init) = false.
+Proof.
+  intros sched.
+  assert (H := all_schedules sj_st sj_st_beq internal_sj_st_dec_bl (sj_step true) 2 (sj_bound true)
+                 sj_reach sj_ok sj_init sj_closed_set sj_init_in sj_all_ok sched).
+  unfold sj_ok in H. apply negb_true_iff in H. exact H.
+Qed.
+
+(* ... and is never stuck before both the join and the teardown are done *)
+Theorem shutdown_join_never_stuck_repaired : forall sched,
+  let s := run sj_st (sj_step true) sched sj_init in
+  sj_final s = true \/ exists t, t < 2 /\ enabled sj_st (sj_step true) t s = true.
+Proof.
+  intros sched s.
+  assert (H := all_schedules sj_st sj_st_beq internal_sj_st_dec_bl (sj_step true) 2 (sj_bound true)
+                 sj_reach (stuck_free sj_st (sj_step true) 2 sj_final) sj_init sj_closed_set sj_init_in sj_all_free sched).
+  fold s in H. unfold stuck_free in H. apply orb_true_iff in H. destruct H as [H|H]; [left; exact H|right].
+  apply existsb_exists in H. destruct H as [t [Ht He]]. exists t. split.
+  - apply in_seq in Ht. lia.
+  - unfold enabled. exact He.
+Qed.
+
+Lemma shutdown_join_nonvacuous :
+  let s := run sj_st (sj_step true) [0; 0; 0; 1; 1; 0] sj_init in sj_final s = true /\ sj_freed s = true /\ sj_uaf s = false.
+Proof. vm_compute. repeat split. Qed.
+
+(* faithful order (the code as read): the reference is dropped first; the notified client thread frees
+   the record; the application then reads currentCl->screen / currentCl->client_thread *)
+Definition sj_witness : list nat := [0; 0; 1; 1; 0].
+Theorem shutdown_join_reads_freed_record :
+  let s := run sj_st (sj_step false) sj_witness sj_init in sj_freed s = true /\ sj_uaf s = true.
+Proof. vm_compute. split; reflexivity. Qed.
+
 (* ------------------------------------------------------------------ 5. lock order *)
 Section LockOrder.
   Variable rank : nat -> nat.
